@@ -147,8 +147,15 @@ Num txs: {"unknown" if self.txs is None else len(self.txs)}
         h256 = hash256(self.serialize())
         # interpret this hash as a little-endian number
         proof = little_endian_to_int(h256)
-        # return whether this integer is less than the target
-        return proof < self.target()
+        # a coefficient with the top bit set is a negative number in the compact
+        # format; a zero target or one above the largest limit of any network
+        # (regtest: 2**255 - 1, which also excludes 256-bit overflow) is never valid
+        coefficient = little_endian_to_int(self.bits[:-1])
+        target = self.target()
+        if coefficient > 0x7FFFFF or target == 0 or target > 2**255 - 1:
+            return False
+        # return whether this integer is at most the target
+        return proof <= target
 
     def validate_merkle_root(self):
         """Gets the merkle root of the tx_hashes and checks that it's
